@@ -96,6 +96,14 @@ def dynrej(name, kind, maxbulk=2, tiers=Q, timeout=900):
                         'range(lo,hi) for every lo,hi in 0..9 on a container bulk-loaded with %d pairs' % maxbulk][kind])
 
 
+def bucketing(name, n, topsize, topbits=32, eps=1, tiers=Q, timeout=1800):
+    d = dict(KT['uint8_t']); d.update(N=n, EPS=eps, TOPSIZE=topsize, TOPBITS=topbits, VERIF_VEC_CAP=n + 4)
+    return dict(name=name, unit='bucketing.cpp', harness='h_bucketing.c', defs=d, narrow=16, roots=['@u_bucketing'], timeout=timeout, tiers=tiers,
+                noop=['memory_monitor6record'], unreachable=['_Rb_tree', 'system_category', 'system_error', 'bad_alloc', 'hugepage'],
+                bounds='exactly %d sorted uint8_t keys, every non-reserved query, Epsilon=%d, TopLevelSize=%d, TopLevelBitSize=%d; sdsl::int_vector is the real code on malloc/realloc; '
+                       'sdsl::memory_monitor::record stubbed (accounting only), huge-page allocator paths asserted unreachable' % (n, eps, topsize, topbits))
+
+
 JOBS = {}
 JOBS['C01'] = [
     e2e('e2e_u8_n1_e1_r1', 'uint8_t', 1, 1, 1),
@@ -126,6 +134,7 @@ JOBS['C06'] += [dynstep('dynstep_it_321', 1, 3, 2, 1), dynstep('dynstep_rng_321'
 JOBS['C15'] += [dynstep('dynstep_inv_322', 2, 3, 2, 2)]
 JOBS['C11'] = [mapped('mapped_u8_n2', 'uint8_t', 2), mapped('mapped_i8_n2', 'int8_t', 2), mapped('mapped_u8_n3_dense', 'uint8_t', 3, ord_hi=3), mapped('mapped_i8_n3', 'int8_t', 3, tiers=T, timeout=3000)]
 
+JOBS['C09'] = [bucketing('bucket_n2_t3', 2, 3), bucketing('bucket_n2_t4', 2, 4)]
 JOBS['C02'] = JOBS['C01'] + [j_ for j_ in JOBS['C03'] if j_['name'] == 'mkseg_n3_e1_c2']
 JOBS['C07'] = [e2e('e2e_u8_n3_e1_r1', 'uint8_t', 3, 1, 1), e2e('e2e_i8_n2_e1_r1', 'int8_t', 2, 1, 1), e2e('e2e_u8_n4_e1_r1', 'uint8_t', 4, 1, 1, tiers=T, timeout=3000)]
 JOBS['C16'] = [e2e('frame_u8_n2_e1_r1', 'uint8_t', 2, 1, 1, extra=dict(WITH_FRAME=1)), e2e('frame_u8_n3_e1_r0', 'uint8_t', 3, 1, 0, extra=dict(WITH_FRAME=1))]
